@@ -739,3 +739,22 @@ PROPS["C17"]["explanation"] += " The defect F8 in general form: at every set sta
 
 # the freshness oracle now knows which actors were moved between replicas (actor_home), so the crate's own scenarios can run under C07 as well
 PROPS["C07"]["profiles"] = [_CORPUS_ORSWOT] + PROPS["C07"]["profiles"]
+
+# --------------------------------------------------------------------------------------------
+# claim texts brought up to date with what is proved (second session)
+# --------------------------------------------------------------------------------------------
+_SYS_NOTE = (" System level: in the models where ops are ONLY produced by the API from replica states (Sys / SysMap / SysList / SysMerkle), log well-formedness and derivability are invariants of every run, "
+             "so the statements hold for every execution with no well-formedness hypothesis (MerkleReg: modulo hash collisions). Hash-map iteration order is proved irrelevant (Props/IterOrder.lean).")
+for _pid in ("C01", "C02", "C03", "C04", "C07", "C09", "C20"):
+    MANIFEST_TEXT[_pid]["text"] += _SYS_NOTE
+MANIFEST_TEXT["C01"]["text"] += " Map: key level for every value type; nested contents proved for histories without key removes (any value type with a representation system) and for nested Orswot under causal op delivery incl. key removes; elsewhere false on the pinned tree (known findings)."
+MANIFEST_TEXT["C02"]["text"] += " Map: the three laws at key level for every value type (Addenda); nested contents: assoc / idem false on the pinned tree (known findings)."
+MANIFEST_TEXT["C03"]["text"] += " Map: merge = union at key level for every value type; nested contents false on the pinned tree (known findings)."
+MANIFEST_TEXT["C08"]["text"] += " Map key level included (keys_rep needs only per-actor order of updates); the nested-Orswot theorem needs causal contexts (counterexample without, kernel-checked)."
+MANIFEST_TEXT["C09"]["text"] += " Map key level: stale states and duplicates absorbed; List duplicates absorbed (C12)."
+MANIFEST_TEXT["C12"]["text"] += " Hypothesis-free at system level (SysList: ops only from insert_index / append / delete_index, causal sub-system included)."
+MANIFEST_TEXT["C13"]["text"] += " At system level: the op generated at any replica of any run lands at the requested index (SysList.run_insert_lands_at_index)."
+MANIFEST_TEXT["C15"]["text"] += " At system level (SysMerkle: nodes only from write on the heads read) the closure of the log under children and acyclicity are invariants; 'a write replaces the heads read' holds for a genuinely new node (counterexample otherwise, kernel-checked)."
+MANIFEST_TEXT["C16"]["text"] += " List also at history level; Map: exact verdict for all states and the defect in general form (every second-key update is rejected at its origin)."
+MANIFEST_TEXT["C19"]["text"] += " Persistence steps (restart, ship state, ship op) inside the API-driven system models reach no new configuration; availability characterised exactly (Orswot: iff no pending remove, always under causal delivery; Map<K,Orswot>: not even under causal delivery – recorded finding; List: always)."
+MANIFEST_TEXT["C20"]["text"] += " Map key level included; nested states may differ by residue even where nested reads provably agree (kernel-checked)."
